@@ -53,6 +53,7 @@ typedef struct {
   int nres, res_bv[4], res_cv[4];   /* every ldres* access of this array (an array may be resampled twice) */
   int res_lin;
   int read, wrote_mem;
+  int ro_dest;              /* a destination array that load instructions read and nothing writes */
   int use_lsize, use_mult;  /* first use of a constant/parameter: lane size and prefix multiplier */
 } PVar;
 
@@ -75,6 +76,8 @@ typedef struct {
   int max_live_temps;
   int const_two_lanes;      /* a constant/parameter is used with two lane sizes of equal total size */
   int acc_nonarray;         /* an accumulating opcode reads something that is not a source array */
+  int has_ro_dest;          /* a load reads an array declared as destination that is never written */
+  int saturated;            /* the variable classes were filled up to the library's limits */
   int ldres_shared;         /* an array is read by ldres* and by another access */
 } ProgSpec;
 
@@ -91,6 +94,7 @@ typedef struct {
   int single_form;          /* operand-kind form for single-opcode programs */
   const char *exclude_prefix;   /* v_excluded ("<prefix><opcode>") drops the opcode */
   int min_insns;                /* >0: aim for at least this many instructions */
+  int saturate;                 /* k>0: one case in k fills every variable class up to the library's limit */
 } GenOpts;
 void gen_opts_default (GenOpts *o);
 
@@ -116,6 +120,7 @@ typedef struct {
   struct {
     int misalign;           /* byte offset (multiple of the variable's alignment) */
     int extra_stride;       /* bytes added to the minimal stride (multiple of alignment) */
+    int neg_stride;         /* 2-D: rows are laid out bottom-up, the stride handed to the program is negative */
     int fill;
     uint64_t seed;
   } a[PS_MAXVARS];
